@@ -1,6 +1,7 @@
 // C07 correspondence harness: the projection function returned by the PUBLIC API.
 // in : proj method=pca|rp|npe|lltsa|lpp N=8 D=3 d=2 k=4 solver=dense seed=1 data=<N rows of D> q=<Q rows of D>
-// out: ok has=1 P=<Dxd> mu=<D> Y=<Nxd> T=<Nxd> Q=<Qxd>     T row i = projection(x_i), Q row r = projection(q_r)
+// out: ok has=1 P=<Dxd> mu=<D> Y=<Nxd> T=<Nxd> Q=<Qxd> C=<Qxd> E=<d> Dm=<d>   T row i = projection(x_i), Q row r = projection(q_r),
+//      C row r = a*f(x_i)+(1-a)*f(x_j) in ONE expression, E = f(x_0) held by reference across a later call, Dm = f(x_0)-f(x_last)
 // in : empty method=<any of the 20> N=.. D=.. d=2 k=.. seed=1 data=<N rows of D>
 // out: ok has=0|1 rows=<N> cols=<d>
 #include "vspectral.hpp"
@@ -45,8 +46,31 @@ static std::string run_proj(std::map<std::string, std::string>& f)
     DenseMatrix Q(q.rows(), d);
     for (int r = 0; r < q.rows(); ++r)
         Q.row(r) = out.projection(DenseVector(q.row(r).transpose())).transpose();
+    // multi-step use of ONE projection function (a projection must be a pure function of its argument):
+    //  C row r = a*f(x_i) + (1-a)*f(x_j) evaluated in a single expression, for every combination query r = i:j:a;
+    //  E       = f(x_0) bound by reference BEFORE f(x_{N-1}) is applied, read afterwards;
+    //  Dm      = f(x_0) - f(x_{N-1}) in a single expression
+    std::vector<std::string> combs = f.count("comb") && f["comb"] != "-" ? vh::split(f["comb"], ',') : std::vector<std::string>();
+    DenseMatrix C = DenseMatrix::Zero(q.rows(), d);
+    for (int r = 0; r < q.rows() && r < (int)combs.size(); ++r)
+    {
+        if (combs[r] == "-")
+            continue;
+        auto t = vh::split(combs[r], ':');
+        const int i = std::stoi(t[0]), j = std::stoi(t[1]);
+        const double a = vh::parse_num(t[2]);
+        const DenseVector xi = X.col(i), xj = X.col(j);
+        DenseVector comb = a * out.projection(xi) + (1.0 - a) * out.projection(xj);
+        C.row(r) = comb.transpose();
+    }
+    const DenseVector x0 = X.col(0), xl = X.col(N - 1);
+    const DenseVector& first = out.projection(x0);
+    DenseVector later = out.projection(xl);
+    DenseVector E = first;
+    DenseVector Dm = out.projection(x0) - out.projection(xl);
+    (void)later;
     s << " P=" << vs::mat(impl->proj_mat) << " mu=" << vs::vec(impl->mean_vec) << " Y=" << vs::mat(out.embedding)
-      << " T=" << vs::mat(T) << " Q=" << vs::mat(Q);
+      << " T=" << vs::mat(T) << " Q=" << vs::mat(Q) << " C=" << vs::mat(C) << " E=" << vs::vec(E) << " Dm=" << vs::vec(Dm);
     return s.str();
 }
 
